@@ -178,8 +178,20 @@ def run_check(prop: str, tier: str, seed: int, fn) -> int:
         print(f"MACHINERY-ERROR property={prop}: {err}", file=sys.stderr)
         ctx.cleanup()
         return 2
-    except Exception:  # pylint: disable=broad-except
+    except Exception as err:  # pylint: disable=broad-except
+        # Not TLC / infrastructure (those raise MachineryError): the implementation either raised where the harness did
+        # not expect it to, or returned something the judging code cannot even read (empty array, wrong shape, None).
+        # On the unchanged tree no check does this for any seed, so it is reported as what it is - behaviour that
+        # cannot be judged as conforming - with the traceback as the replay, and the rest of the run is abandoned.
+        tb = traceback.extract_tb(err.__traceback__)
+        where = next((f for f in reversed(tb) if os.sep + "harness" + os.sep in f.filename), tb[-1])
         traceback.print_exc()
-        print(f"MACHINERY-ERROR property={prop}: unexpected exception in harness", file=sys.stderr)
-        ctx.cleanup()
-        return 2
+        try:
+            ctx.violation(f"unjudgeable:{type(err).__name__}:{os.path.basename(where.filename)}:{where.name}",
+                          f"the implementation's behaviour could not be judged: {type(err).__name__}: {err}",
+                          {"traceback": traceback.format_exc().splitlines()[-12:]})
+            return ctx.finish()
+        except Exception:  # pylint: disable=broad-except
+            print(f"MACHINERY-ERROR property={prop}: unexpected exception in harness", file=sys.stderr)
+            ctx.cleanup()
+            return 2
